@@ -241,6 +241,8 @@ enum Edit {
   Unbreak(usize),
   Delete(usize),
   Restore(usize),
+  /// reload without any change (any loaded entry, incl. JSON modules)
+  Touch(usize),
 }
 
 fn apply_edit(gw: &mut GWorld, e: &Edit) -> String {
@@ -271,10 +273,29 @@ fn apply_edit(gw: &mut GWorld, e: &Edit) -> String {
       gw.modules[*m].serve = Serve::Module;
       gw.modules[*m].url.clone()
     }
+    Edit::Touch(m) => gw.modules[*m].url.clone(),
   }
 }
 
 fn random_edit(rng: &mut Rng, gw: &GWorld, loaded: &[String]) -> Option<Edit> {
+  if rng.chance(1, 5) {
+    // touch: a loaded JSON or JS/TS module served by extension
+    let cands: Vec<usize> = gw
+      .modules
+      .iter()
+      .enumerate()
+      .filter(|(_, m)| {
+        (m.media == Media::Json || m.media.is_js_like())
+          && !m.via_header
+          && m.serve == Serve::Module
+          && loaded.contains(&m.url)
+      })
+      .map(|(i, _)| i)
+      .collect();
+    if !cands.is_empty() {
+      return Some(Edit::Touch(*rng.pick(&cands)));
+    }
+  }
   // edit only modules that are currently loaded JS/TS modules (or deleted ones)
   let cands: Vec<usize> = gw
     .modules
@@ -359,6 +380,7 @@ fn reload_case(i: usize, seed: u64, acc: &mut Acc) {
   }
   let steps = rng.range(1, 4);
   let mut history: Vec<Value> = vec![];
+  let mut ever_reloaded: Vec<String> = vec![];
   for _ in 0..steps {
     let loaded: Vec<String> = g
       .specifiers()
@@ -383,6 +405,7 @@ fn reload_case(i: usize, seed: u64, acc: &mut Acc) {
       return;
     }
     history.push(json!({"edits": edits_desc, "reload": edited}));
+    ever_reloaded.extend(edited.iter().cloned());
     acc.eval();
     let before = entry_views(&g);
     let world = gw.to_world();
@@ -424,13 +447,20 @@ fn reload_case(i: usize, seed: u64, acc: &mut Acc) {
                 .map(|s| s.to_string())
                 .unwrap_or_else(|| v["kind"].as_str().unwrap_or("module").to_string())
             };
+            let root_leniency = ever_reloaded.contains(spec)
+              && class(&sv.body) == "err:unsupported-media-type"
+              && !class(&av.body).starts_with("err:");
             acc.violation(
-              format!(
-                "reload≠scratch/entry-differs/{}-vs-{}/{}",
-                class(&av.body),
-                class(&sv.body),
-                if was_reloaded { "reloaded-specifier" } else { "other-specifier" }
-              ),
+              if root_leniency {
+                "reload≠scratch/root-leniency".to_string()
+              } else {
+                format!(
+                  "reload≠scratch/entry-differs/{}-vs-{}/{}",
+                  class(&av.body),
+                  class(&sv.body),
+                  if was_reloaded { "reloaded-specifier" } else { "other-specifier" }
+                )
+              },
               format!("{}: reloaded {} vs from scratch {}", spec, av.body, sv.body),
               ctx.clone(),
             );
